@@ -145,6 +145,12 @@ func (sc *Scheduler) Schedule(ctx context.Context, g *ExecutionGraph, done chan 
 					wg.Done()
 				}()
 
+				// The log of the last attempt that was executed (empty on the
+				// first launch): setting up an attempt points the step's
+				// status at a new, empty log file.
+				prevLog := node.State().Log
+				executed := false
+
 				setupSucceed := true
 				if err := sc.setupNode(node); err != nil {
 					setupSucceed = false
@@ -163,6 +169,7 @@ func (sc *Scheduler) Schedule(ctx context.Context, g *ExecutionGraph, done chan 
 
 			ExecRepeat:
 				for setupSucceed && !sc.isCanceled() {
+					executed = true
 					execErr := sc.execNode(ctx, node)
 					if execErr != nil {
 						status := node.State().Status
@@ -222,6 +229,11 @@ func (sc *Scheduler) Schedule(ctx context.Context, g *ExecutionGraph, done chan 
 				// finish the node
 				if node.State().Status == NodeStatusRunning {
 					node.setStatus(NodeStatusSuccess)
+				}
+				if !executed && setupSucceed && prevLog != "" {
+					// The run was stopped before this retry was executed: what
+					// the step printed is in the log of its last attempt.
+					node.setLog(prevLog)
 				}
 				if !released {
 					if err := sc.teardownNode(node); err != nil {
